@@ -7,3 +7,7 @@ open Spydr.IR
 #print axioms Spydr.IR.step_below
 #print axioms Spydr.IR.run_below
 #print axioms Spydr.IR.cloneNetlist_reachable
+#print axioms Spydr.IR.step_sep
+#print axioms Spydr.IR.run_sep
+#print axioms Spydr.IR.sep_double
+#print axioms Spydr.IR.clone_edits_invisible_in_original
